@@ -70,6 +70,25 @@ def parse_agreement(data: bytes):
             same = (got == st) if integ == "generic" else (set(got) == set(st))
             if not same:
                 return {"clause": "entry-points-differ", "summary": f"{integ}:{entry} gives {len(got)} statements, flat {len(st)}"}
+    # with logical_type_strict=True the two integrations must take the SAME decision on the same bytes (accept or refuse),
+    # and where they accept, deliver the same statements as without the flag
+    for entry in ("flat", "grouped"):
+        outcome = {}
+        for integ in ("generic", "rdflib"):
+            try:
+                evs = T.norm_events(pj.parse(integ, entry, data, logical_type_strict=True))
+                outcome[integ] = ("accepted", [e for e in evs if e[0] == "stmt"])
+            except Exception as e:  # noqa: BLE001
+                outcome[integ] = ("refused", type(e).__name__)
+        if outcome["generic"][0] != outcome["rdflib"][0]:
+            return {"clause": "integrations-differ", "summary": f"{entry} with logical_type_strict=True: generic {outcome['generic'][0]}, "
+                                                                f"rdflib {outcome['rdflib'][0]} ({outcome['generic'][1] if outcome['generic'][0] == 'refused' else outcome['rdflib'][1]})"}
+        if outcome["generic"][0] == "accepted":
+            for integ in ("generic", "rdflib"):
+                a = outcome[integ][1]
+                same = (a == st) if integ == "generic" else (set(a) == set(st))
+                if not same:
+                    return {"clause": "entry-points-differ", "summary": f"{integ}:{entry} with logical_type_strict=True gives other statements than without"}
     # the entry points used TOGETHER on one file (a preview of the first statements with the flat parser, then a full load
     # with another entry point, then the rest of the preview): every one must still give what it gives alone
     import io
